@@ -492,15 +492,16 @@ func (t *UpdateTran) fkeyDeleteBlock(ts *meta.Schema, i int, key string,
 			fkey = encKey
 		}
 		if fkth.Mode&cascades == 0 &&
-			t.fkeyDeleteExists(fkth, fkey, len(ix.Columns)) {
+			t.fkeyDeleteExists(fkth, fkey, len(ix.Columns), fkis.Encodes()) {
 			panic("delete blocked by foreign key: " +
 				fkth.Table + " " + str.Join("(,)", fkth.Columns))
 		}
 	}
 }
 
-func (t *UpdateTran) fkeyDeleteExists(fkth *schema.Fkey, key string, kn int) bool {
-	end := rangeEnd(key, kn)
+func (t *UpdateTran) fkeyDeleteExists(fkth *schema.Fkey, key string, kn int,
+	encoded bool) bool {
+	end := fkeyRangeEnd(key, kn, encoded)
 	iter := index.NewOverIter(fkth.Table, fkth.IIndex)
 	iter.Range(index.Range{Org: key, End: end})
 	iter.Next(fkeyTran{t})
@@ -509,6 +510,16 @@ func (t *UpdateTran) fkeyDeleteExists(fkth *schema.Fkey, key string, kn int) boo
 	}
 	t.Read(fkth.Table, fkth.IIndex, key, end)
 	return !iter.Eof()
+}
+
+// fkeyRangeEnd returns the end of the range of foreign key index entries
+// that refer to key. If the foreign key index is not encoded
+// (single field) then only an exact match refers to key.
+func fkeyRangeEnd(key string, n int, encoded bool) string {
+	if !encoded {
+		return key + "\x00"
+	}
+	return rangeEnd(key, n)
 }
 
 // rangeEnd returns the end of the range for a key.
@@ -563,7 +574,7 @@ func (t *UpdateTran) cascadeRange(fk *schema.Fkey, encoded bool, key string, kn 
 	if !encoded && fkis.Encodes() {
 		key = ixkey.Encode(key)
 	}
-	end := rangeEnd(key, kn)
+	end := fkeyRangeEnd(key, kn, fkis.Encodes())
 	t.Read(fk.Table, fk.IIndex, key, end)
 	iter := index.NewOverIter(fk.Table, fk.IIndex)
 	iter.Range(index.Range{Org: key, End: end})
